@@ -83,6 +83,13 @@ class Exec(ExprMixin, CallMixin, BuiltinMixin, StmtMixin):
         same_prefix = z3.ForAll([j], z3.Implies(z3.And(0 <= j, j < lo), self.at(new, j, path).t == self.at(old, j, path).t))
         return VBool(z3.And(ln == lo + 1, self.identical(self.at(new, lo, path), x), same_prefix))
 
+    def prim_reports_only_to(self, args, path, node):
+        """ghost: the listener list of the recognizer (library model in call.py) is exactly [listener]"""
+        rec, lis = args
+        reg = path.env.get('$listeners') or {}
+        cur = reg.get(rec.t.get_id(), ('<console>',)) if getattr(rec, 't', None) is not None else ('<unknown>',)
+        return VBool(cur == (lis.t.get_id(),))
+
     def prim_owned(self, args, path, node):
         N = self.ctx.sorts.Node
         return VBool(N.owned(self.coerce(args[0], NODE).t))
@@ -537,6 +544,9 @@ def discharge(ctx, ob, timeout_ms=None, outside=None, known_ids=()):
     # lemma obligations see only the axioms that existed when they arose (plus definitional extensions)
     ctx.axiom_limit = getattr(ob, 'n_axioms', None) if ob.kind.startswith('lemma') else None
     inductive = ob.kind.startswith(('post', 'lemma')) or ob.kind in ('inv_preserve', 'inv_init', 'pre')
+    if getattr(ob, 'trivial', False):
+        res.update(verdict='proved', backend='evaluation (the clause is literally true on this path)', seconds=0.0)
+        return res
     # 1. e-matching only; 2. fold induction; 3. full z3 (model finding); 4. CLI back ends on the SMT-LIB dump
     v, be, dt, extra = check_valid(ctx, ob.hyps, ob.goal, timeout_ms, use_cli=False, full=False)
     if v != 'proved' and outside is not None:
